@@ -275,7 +275,7 @@ def runLine (r : Report) (sec : Nat) (l : Line) : Report := Id.run do
   let c := run.cfg
   let some resS := kv? l.obs "res" | return r.mismatch sec l.idx "bad-obs" (joinSp l.obs)
   -- not executed: the harness stops after a few calls that did not return (each of them is a violation already)
-  if resS = "skipped" then return r.addCover "not-executed-after-hangs"
+  if resS = "skipped" then return r.addCover "not-executed-after-hangs-or-leaks"
   let some left := (kv? l.obs "left").bind (·.toNat?) | return r.mismatch sec l.idx "bad-obs-left" (joinSp l.obs)
   let some mapped := (kv? l.obs "mapped").bind parseNatList | return r.mismatch sec l.idx "bad-obs-mapped" (joinSp l.obs)
   let some reduced := (kv? l.obs "reduced").bind parseNatList | return r.mismatch sec l.idx "bad-obs-reduced" (joinSp l.obs)
